@@ -66,6 +66,13 @@ CLAIMED["C10"] = dict(
     note="Schedule/size space exhaustion: stream contents are concrete distinct bytes; the solver decides event order, arrival sizes and receive sizes. Endpoint/server-level variants are covered by C03/C15 checks.",
 )
 
+CLAIMED["C20"] = dict(
+    text="Bounded symbolic execution of the real WriteFlowControl / writer_drain / AsyncioTransportStreamSocketAdapter.send_all over a fake asyncio transport on a deterministic loop: 2-3 sender tasks, a solver-chosen sequence of events (loop iteration, kernel takes j bytes, start sender, cancel a sender, fatal error) with symbolic immediate-accept and flush sizes, then a final resume or connection loss. Asserted: user-space buffering disabled (high-water mark 0); a send_all that returns did so only after its own bytes reached the kernel; after the final resume every non-cancelled sender returned; after a loss every unfinished sender raises OSError (no hang, no silent drop); cancelling one parked sender strands nobody.",
+    design="4/C20",
+    technique="symbolic execution of real code (CrossHair+z3) over event schedules and sizes on a deterministic asyncio loop",
+    note="Stream adapter only (datagram endpoint/listener protocols share the same WriteFlowControl class but are not driven).",
+)
+
 NOT_APPLICABLE = {
     "C08": "TLS byte-transparency/encryption is decided inside OpenSSL's record layer (C code, cryptography): it cannot be executed symbolically by any installed engine; stubbing it would verify the stub, and running real OpenSSL realises every symbolic size (degenerates to concrete enumeration). See DESIGN.md section 5.",
     "C09": "Whether a cut at a byte offset of a real ciphertext stream yields SSLEOFError / SSLZeroReturnError / a protocol error is OpenSSL's partial-record parsing, not encodable; the EasyNetwork part is a three-way exception mapping. See DESIGN.md section 5.",
